@@ -405,6 +405,33 @@ func sliceContains(v ssa.Value, pred func(ssa.Value) bool) bool {
 }
 
 func init() {
+	register(&Rule{ID: "SNAP.store", Min: 3, Text: "storing a snapshot: the function of server/packs that writes a snapshot row (Database.CreateSnapshotInfo) rebuilds the document from the closest stored snapshot X and replays exactly the changes (X.ServerSeq+1 … DocInfo.ServerSeq]: the lower bound of FindChangesBetweenServerSeqs is the ServerSeq of the very snapshot row the document is built from, plus one; the upper bound and the pack's checkpoint are the document's ServerSeq",
+		Run: func(x *Ctx) {
+			csi := x.P.IfaceMethod(dbPkg + ".Database.CreateSnapshotInfo")
+			between := x.P.IfaceMethod(dbPkg + ".Database.FindChangesBetweenServerSeqs")
+			newFromSnap := x.P.FnObj(docPkg + ".NewInternalDocumentFromSnapshot")
+			snapSS := x.P.Field(dbPkg + ".SnapshotInfo.ServerSeq")
+			docSS := x.P.Field(dbPkg + ".DocInfo.ServerSeq")
+			if csi == nil || between == nil || newFromSnap == nil || snapSS == nil || docSS == nil {
+				x.C.Unresolved(x.id(), "CreateSnapshotInfo / FindChangesBetweenServerSeqs / NewInternalDocumentFromSnapshot / SnapshotInfo.ServerSeq")
+				return
+			}
+			for _, c := range callsTo(x.P.FuncsIn("server/packs"), csi) {
+				fn := c.Parent()
+				k := "func=" + prog.FnName(fn)
+				rep := callsToIn(fn, between)
+				nd := callsToIn(fn, newFromSnap)
+				if len(rep) != 1 || len(nd) != 1 {
+					x.fail(k+" shape", x.fpos(fn), "expected one change replay and one document construction from a snapshot row")
+					continue
+				}
+				from, to := paramArg(rep[0], 2), paramArg(rep[0], 3)
+				x.check(isPlusOne(from, vpField(snapSS)), k+" replay-from=snapshot.ServerSeq+1", x.pos(rep[0]), "the replay starts right after the snapshot row", "the replay does not start at (ServerSeq of the closest snapshot) + 1: the change on the snapshot boundary is applied twice or skipped")
+				x.check(prog.LoadedField(to) == docSS, k+" replay-to=DocInfo.ServerSeq", x.pos(rep[0]), "the replay ends at the document head", "the replay does not end at DocInfo.ServerSeq")
+				x.check(prog.LoadedField(paramArg(nd[0], 1)) == snapSS, k+" built-from-the-same-snapshot-row", x.pos(nd[0]), "the document is built at the snapshot row's ServerSeq", "the document is not built at the ServerSeq of the snapshot row it is decoded from")
+			}
+		}})
+
 	register(&Rule{ID: "SNAP.apply", Min: 5, Text: "receiving a snapshot: InternalDocument.applySnapshot replaces the root with crdt.NewRoot of the decoded object, replaces the presences with the decoded ones, and adopts the clocks with SetClocks(vector.MaxLamport(), vector) of the pack's vector; on the server the snapshot pull encodes the rebuilt document (after applying the request's own changes) and ships the document's own version vector with it",
 		Run: func(x *Ctx) {
 			fn := x.fn(docPkg + ".(*InternalDocument).applySnapshot")
